@@ -119,7 +119,14 @@ func flushScenario(s *Sim, params map[string]string) {
 	if !multiTopic {
 		w.Topic = topics[0]
 	}
-	desc := fmt.Sprintf("BatchSize %d BatchBytes %d BatchTimeout %v async=%v acks=%d", batchSize, batchBytes, bt, async, acks)
+	// a Completion callback that takes its time: it runs on the sender of its
+	// own partition (whose next batch waits for it) and must hold up nobody else
+	var compDelay time.Duration
+	if t.Intn("completion", 3) == 0 {
+		compDelay = Pick(t, "completion", 30*time.Millisecond, 250*time.Millisecond)
+		w.Completion = func(msgs []kafka.Message, err error) { s.Sleep(compDelay) }
+	}
+	desc := fmt.Sprintf("BatchSize %d BatchBytes %d BatchTimeout %v async=%v acks=%d completion callback taking %v", batchSize, batchBytes, bt, async, acks, compDelay)
 
 	nact := t.Range("cfg", 1, 3)
 	total := 0
@@ -316,9 +323,9 @@ func flushScenario(s *Sim, params map[string]string) {
 				}
 				switch {
 				case pr.r.Resp == nil: // acks=0
-					prevDone = pr.r.At
+					prevDone = pr.r.At + compDelay
 				case pr.r.RespFull:
-					prevDone = pr.r.RespFullAt
+					prevDone = pr.r.RespFullAt + compDelay
 				default:
 					prevDone = s.Now()
 				}
@@ -335,7 +342,7 @@ func flushScenario(s *Sim, params map[string]string) {
 			closing = true
 			s.Go("closer", func() {
 				// silence: the batch timer plus one slow response per possible batch
-				s.Sleep(bt + time.Duration(total+1)*(cl.F.SlowMax+time.Millisecond) + time.Second)
+				s.Sleep(bt + time.Duration(total+1)*(cl.F.SlowMax+compDelay+time.Millisecond) + time.Second)
 				check()
 				w.Close()
 				tr.CloseIdleConnections()
